@@ -507,7 +507,7 @@ func renumber(g *gen.GraphBP, pp, fp string) {
 
 func genCase(rt *rapid.T) mergeCase {
 	base := rapid.SampledFrom([]int{1850, 1900}).Draw(rt, "base")
-	o := gen.GraphOpts{MaxPeople: 7, MaxFamilies: 3, YearLo: base, YearHi: base + 40, UIDs: rapid.Bool().Draw(rt, "uids")}
+	o := gen.GraphOpts{MaxPeople: 7, MaxFamilies: 3, YearLo: base, YearHi: base + 40, UIDs: rapid.Bool().Draw(rt, "uids"), Big: 60, BigLo: 20, BigHi: 45}
 	c := mergeCase{Left: gen.Graph(o).Draw(rt, "left")}
 	c.Kind = rapid.SampledFrom([]string{"same-pointers", "same-pointers", "renumbered", "disjoint", "clashing", "empty"}).Draw(rt, "kind")
 	switch c.Kind {
